@@ -708,4 +708,7 @@ func runJWT(r *vcommon.Run) {
 	}
 	r.Set("jwt_partC_authentications", nC)
 	r.Set("jwks_fetches", js.hits.Load())
+
+	// ---------------- part D: JWKS histories (jwkshist.go)
+	runJWKSHistories(r, ks, now)
 }
